@@ -175,9 +175,16 @@ def register(R):
             en1 = b2z(c.new.f(body, '_callbacks_enabled'))
             en0 = b2z(c.old.f(body, '_callbacks_enabled')) if body.oid in c.old.st.heap else en1
             if c.a_operation_name in ('PutObject', 'UploadPart'):
-                return {'reporting_of_the_upload_body_is_' + ('on' if val else 'off'): en1 == B(val)}
+                # ... and the signal is passed on to the stream under the body (a bandwidth-limited stream switches its
+                # throttling on / off with it, C13) whenever that stream understands it
+                fo = c.new.f(body, '_fileobj')
+                sig = [e for e in flat(c.trace) if e.kind == 'ext' and e.name == 'fileobj_or_name.' + name]
+                has = c.engine.opaque_pred(fo, 'hasattr_' + name) if isinstance(fo, Opaque) else B(False)
+                return {'reporting_of_the_upload_body_is_' + ('on' if val else 'off'): en1 == B(val),
+                        'signal_reaches_the_wrapped_stream_iff_it_understands_it': (z3.If(
+                            has, B(len(sig) == 1 and sig[0].recv is fo), B(len(sig) == 0)), ['C13', 'C09'])}
             return {'other_operations_bodies_untouched': en1 == en0}
-        R.contract(f'{UT}:{name}', props=['C09'], params=dict(request=ExtT('aws_request'), operation_name=Str),
+        R.contract(f'{UT}:{name}', props=['C09', 'C13'], params=dict(request=ExtT('aws_request'), operation_name=Str),
                    param_alternatives={'operation_name': [(n, Const(n)) for n in ('PutObject', 'UploadPart', 'GetObject')]},
                    setup=lambda eng, st, args, self_val: request_body(eng, st, args['request'], (), {}),
                    checks=checks, raises={}, top_level=True)
